@@ -286,6 +286,10 @@ class State:
         kty = dv.ty.args[0] if len(dv.ty.args) == 2 else ANY
         if kty.kind == 'str':
             facts.append(fa([x], z3.Implies(z3.Select(dom, x), Val.is_s(x)), z3.Select(dom, x)))
+        elif kty.kind == 'int':
+            facts.append(fa([x], z3.Implies(z3.Select(dom, x), z3.And(Val.is_num(x), z3.IsInt(Val.nv(x)))), z3.Select(dom, x)))
+        elif kty.kind == 'real':
+            facts.append(fa([x], z3.Implies(z3.Select(dom, x), Val.is_num(x)), z3.Select(dom, x)))
         self.pc.extend(facts)
 
     def dict_has(self, dv: V, key: V):
